@@ -281,8 +281,12 @@ def rule_one_path(ctx, px):
     bad = []
     kinds = set()
     for r in _returns(fo.node):
+        r = pyfront.subst_locals(fo.node, r)      # `own = self._map.get(t); if own is not None: return own`
         if isinstance(r, ast.Attribute) and r.attr == "_output_path" and isinstance(r.value, ast.Name) and r.value.id == p0:
             kinds.add("namespace")
+        elif isinstance(r, ast.Call) and isinstance(r.func, ast.Attribute) and r.func.attr == "get" and isinstance(r.func.value, ast.Attribute) \
+                and r.func.value.attr == "_data_type_to_outputs" and len(r.args) == 1 and isinstance(r.args[0], ast.Name) and r.args[0].id == p0:
+            kinds.add("own-map")
         elif isinstance(r, ast.Subscript) and isinstance(r.value, ast.Attribute) and r.value.attr == "_data_type_to_outputs" and isinstance(r.slice, ast.Name) and r.slice.id == p0:
             kinds.add("own-map")
         elif isinstance(r, ast.Call) and isinstance(r.func, ast.Attribute) and r.func.attr == "_bfs_search_for_output_path" and r.args and \
@@ -415,7 +419,13 @@ def rule_links(ctx, px):
     ok = len(of) == 1
     if ok:
         divs = [b for b in ast.walk(of[0].value) if isinstance(b, ast.BinOp) and isinstance(b.op, ast.Div)]
-        ok = len(divs) == 1 and isinstance(divs[0].left, ast.Name) and divs[0].left.id == ips[2] and "_namespace_components_stropped" in _attrs(divs[0].right)
+        left = divs[0].left if divs else None
+        # the base is the constructor's base_output_path parameter, directly or through the attribute it was stored in
+        stored = {t.attr for n in ast.walk(init.node) if isinstance(n, ast.Assign) and isinstance(n.value, ast.Name) and n.value.id == ips[2]
+                  for t in n.targets if isinstance(t, ast.Attribute) and isinstance(t.value, ast.Name) and t.value.id == "self"}
+        base_ok = (isinstance(left, ast.Name) and left.id == ips[2]) or \
+            (isinstance(left, ast.Attribute) and isinstance(left.value, ast.Name) and left.value.id == "self" and left.attr in stored)
+        ok = len(divs) == 1 and base_ok and "_namespace_components_stropped" in _attrs(divs[0].right)
     ctx.ob(R, m.rel, f"{init.short} :: output folder = base_output_path / stropped namespace components", ok, "", init.node.lineno)
     app = [c for c in ast.walk(init.node) if isinstance(c, ast.Call) and isinstance(c.func, ast.Attribute) and c.func.attr == "append" and
            isinstance(c.func.value, ast.Attribute) and c.func.value.attr == "_namespace_components_stropped"]
